@@ -31,6 +31,20 @@ def main():
                     tp = r.get("tests_pass")
                 out.append(f"| {r['name']} | {r.get('status')} | {'yes' if tp else ('no' if tp is False else 'n/a')} | {sigs} | {needs} |")
             out.append("")
+    # detection outcome into each seeded change's meta.json
+    for path in sorted(glob.glob(os.path.join(VERIF, "selftest", "logs", "*-seeded.jsonl"))):
+        for r in (json.loads(l) for l in open(path) if l.strip()):
+            base = r["name"].split("@")[0]
+            mp = os.path.join(VERIF, "seeded", base, "meta.json")
+            if not os.path.exists(mp):
+                continue
+            m = json.load(open(mp))
+            det_ = m.setdefault("detection", {})
+            det_[r.get("checked_with") or m.get("property")] = {
+                "status": r.get("status"), "wall_s": r.get("wall_s"),
+                "signatures": sorted({x.split(" key=")[0].replace("signature=", "") for x in r.get("signatures", [])})[:4],
+                "verif_head": r.get("verif_head"), "cmd": "selftest/run_mutants.py %s %s --seeded" % (m.get("property"), base)}
+            json.dump(m, open(mp, "w"), indent=1)
     det = os.path.join(VERIF, "selftest", "logs", "determinism.txt")
     if os.path.exists(det):
         out += ["## Determinism", "", "```", open(det).read().strip(), "```", ""]
